@@ -363,3 +363,88 @@ func TestRaceInmem(t *testing.T) {
 	for range errs {
 	}
 }
+
+// TestRaceLocked: main port (Locked) and batch port (LockedWithExisting) share one lock
+// set, as in app/memproxy.go; many connections on both ports append unique tokens to a
+// few shared keys. Auxiliary to C03 (and to C14's "lock tables" clause): besides the race
+// detector, the stage compares L1 with L2 when all commands have been answered.
+func TestRaceLocked(t *testing.T) {
+	if os.Getenv("VERIF_RACE") == "" {
+		t.Skip("auxiliary stage, run by bin/check")
+	}
+	dir := tmpDir(t)
+	protocols := []protocol.Components{binprot.Components, textprot.Components}
+	for _, multi := range []bool{false, true} {
+		l1p := filepath.Join(dir, fmt.Sprintf("l1-%v.sock", multi))
+		l2p := filepath.Join(dir, fmt.Sprintf("l2-%v.sock", multi))
+		mainp := filepath.Join(dir, fmt.Sprintf("main-%v.sock", multi))
+		batchp := filepath.Join(dir, fmt.Sprintf("batch-%v.sock", multi))
+		f1 := startFake(t, l1p)
+		f2 := startFake(t, l2p)
+		h1, h2 := memcached.Regular(l1p), memcached.Regular(l2p)
+		o, slot := orcas.Locked(orcas.L1L2, multi, 8)
+		go server.ListenAndServe(server.UnixListener(mainp), protocols, server.Default, o, h1, h2)
+		go server.ListenAndServe(server.UnixListener(batchp), protocols, server.Default, orcas.LockedWithExisting(orcas.L1L2Batch, slot), h1, h2)
+		for _, p := range []string{mainp, batchp} {
+			for i := 0; i < 200; i++ {
+				if cc, err := net.Dial("unix", p); err == nil {
+					cc.Close()
+					break
+				}
+				time.Sleep(5 * time.Millisecond)
+			}
+		}
+		keys := []string{"sk-0", "sk-1", "sk-2", "sk-3"}
+		// seed the keys through the main port so that L1 holds them
+		seedc, err := net.Dial("unix", mainp)
+		if err != nil {
+			t.Fatal(err)
+		}
+		sbr := bufio.NewReader(seedc)
+		for _, k := range keys {
+			op := wire.Op{Kind: "set", Key: k, Data: []byte("|")}
+			seedc.Write(wire.EncodeText(op))
+			readReply(sbr, "text", op)
+		}
+		seedc.Close()
+		var wg sync.WaitGroup
+		for c := 0; c < 12; c++ {
+			wg.Add(1)
+			go func(c int) {
+				defer wg.Done()
+				port := batchp
+				if c >= 8 {
+					port = mainp
+				}
+				cc, err := net.Dial("unix", port)
+				if err != nil {
+					return
+				}
+				defer cc.Close()
+				br := bufio.NewReader(cc)
+				r := rand.New(rand.NewPCG(seed()+uint64(c), 11))
+				for i := 0; i < 400; i++ {
+					op := wire.Op{Kind: "append", Key: keys[r.IntN(len(keys))], Data: []byte(fmt.Sprintf("c%d.%d|", c, i))}
+					if _, err := cc.Write(wire.EncodeText(op)); err != nil {
+						return
+					}
+					cc.SetReadDeadline(time.Now().Add(20 * time.Second))
+					if err := readReply(br, "text", op); err != nil {
+						return
+					}
+				}
+			}(c)
+		}
+		wg.Wait()
+		f1.mu.Lock()
+		f2.mu.Lock()
+		for _, k := range keys {
+			a, b := f1.fake.Store.Peek(k), f2.fake.Store.Peek(k)
+			if a != nil && (b == nil || !bytes.Equal(a.Value, b.Value)) {
+				t.Errorf("PARALLEL-STAGE VIOLATION: all commands have been answered but L1 and L2 differ for key %q (multi-reader %v): the two ports did not exclude each other", k, multi)
+			}
+		}
+		f2.mu.Unlock()
+		f1.mu.Unlock()
+	}
+}
